@@ -138,6 +138,7 @@ def _run_property(prop, tier, seed, cfg, sdir, t0):
     hashes = []
     unstable = []
     functions = []
+    fn_times = []
     for unit in units:
         per_seed = []
         meta = None
@@ -156,7 +157,7 @@ def _run_property(prop, tier, seed, cfg, sdir, t0):
                         trusted.append(x)
                 for x in forb:
                     tool.append('[%s] forbidden assume/admit in assembled file: %s' % (unit, x))
-                cmds.append(run['cmd'].replace(sdir, '<scratch>'))
+                cmds.append('python3 extract/extract.py %s <scratch> && ' % unit + re.sub(r'/\S*?reval-verif\.\d+/', '<scratch>/', run['cmd']))
             try:
                 smt_ms += run['json']['times-ms']['smt']['smt-run'] if run['json'] else 0
             except Exception:
@@ -180,6 +181,8 @@ def _run_property(prop, tier, seed, cfg, sdir, t0):
             ids_s = set(f['clause'] for f in res_s['failed'])
             for cid in set(failed_ids) ^ ids_s:
                 unstable.append('%s:%s' % (unit, cid))
+        for k, st in res0['fn_status'].items():
+            fn_times.append({'function': k, 'smt_time_us': st.get('time_us', 0), 'rlimit': st.get('rlimit', 0), 'ok': st.get('ok')})
         rewrites.extend(meta['rewrites'])
         dropped.extend(meta['dropped'])
         hashes.extend(meta['hashes'])
@@ -268,6 +271,7 @@ def _run_property(prop, tier, seed, cfg, sdir, t0):
             'functions_count': fn_count,
             'back_end': 'Verus 0.2026.09.13 (Z3 4.16.0)' + (' + Kani 0.68.0 (CBMC 6.11)' if kani_info else ''),
             'solver_time_ms': smt_ms, 'verus_wall_s': round(wall_verus, 2),
+            'slowest_functions': sorted(fn_times, key=lambda x: -x['smt_time_us'])[:12],
             'samples': [{'obligation': o['id'], 'function': o['fn'], 'source': o['src'], 'kind': o['kind'], 'status': o['status'],
                          **({'bounded': o['bounded']} if o.get('bounded') else {})} for o in obligations[:400]],
             'bounded_obligations': [{'obligation': o['id'], 'status': o['status'], 'bound': o['bounded']} for o in obligations if o.get('bounded')],
